@@ -95,7 +95,7 @@ def coq_bad_rows(ctx):
     os.makedirs(d, exist_ok=True)
     src = os.path.join(d, "c04_rows%s.v" % ("" if pv.REPO == "/repo" else "_scratch"))
     body = ["From Coq Require Import List String Bool.", "From PV Require Import Tables.OpSyntax Tables.OpRows Tables.OpCheck Tables.ApiModel Tables.ApiTable Gen.OpTables.",
-            "Open Scope string_scope."]
+            "Import ListNotations.", "Open Scope string_scope.", "Open Scope bool_scope."]
     for name, chk, kind in CHECKS:
         if kind == "row":
             body.append('Eval vm_compute in ("TAG %s", bad_tags %s).' % (name, chk))
@@ -159,12 +159,26 @@ def run(ctx):
             bad2, _ = run_rows(ctx, b2, lines, v)
             bad += [(l, "[%s build] %s" % (v, o)) for l, o in bad2]
             variants.append(v)
+    # a table theorem no longer checks: let Coq name the rows, and map each row to its calls
+    broken = (not res["ok"]) or bool(tr_err)
+    rows, why, thm_lines = {}, {}, {}
+    if broken:
+        rows = coq_bad_rows(ctx)
+        ctx.cov["offending_rows"] = rows
+        for thm, tags in rows.items():
+            for tag in tags:
+                ls = [] if tag.startswith(("cache", "<")) else lines_for(tag, tabs, lines)
+                if any(sp in tag.split() for sp in SPECIAL):
+                    ls = ls + ["sweep"]
+                thm_lines.setdefault(thm, set()).update(ls)
+                for l in ls:
+                    why[l] = why.get(l, "") + "theorem C04_%s fails at row `%s`; " % (thm, tag)
     reported = set()
     for l, o in bad[:4]:
         reported.add(l)
-        txt = describe(l, o)
+        txt = why.get(l, "") + describe(l, o)
         ctx.violation("api-row", {"kind": "two-api-call", "case": l, "output": o, "witness": "api-row :: " + l, "text": txt,
-                                  "driver": impl}, True, txt)
+                                  "theorem_and_row": why.get(l), "driver": impl}, True, txt)
     ctx.cov["evaluations"] = sum(r["cases"] for r in ctx.cov["two_api_rows"].values()) + sum(
         (r.get("sweep") or {}).get("cases", 0) for r in ctx.cov["two_api_rows"].values() if isinstance(r.get("sweep"), dict))
     ctx.cov["traces_validated_against_impl"] = ctx.cov["evaluations"]
@@ -211,35 +225,22 @@ def run(ctx):
         "value guards of Device entries that forward_shape does not repeat are only those listed in OpCheck.guard_allowed (distribution parameters, identity size 0, copy of an invalid tensor, empty concat); device mismatches (CHECK_DEVICE) surface at evaluation at the latest, as the property allows",
     ]
 
-    # ---- a table theorem no longer checks: name the rows, construct and replay the calls
-    if not res["ok"] or tr_err:
-        rows = coq_bad_rows(ctx)
-        ctx.cov["offending_rows"] = rows
-        found = bool(reported)
-        tried = {}
+    # ---- broken theorems for which no replayed call disagrees: report them by name, with their rows
+    if broken:
+        bad_lines = {l for l, _ in bad}
+        unexplained = {}
         for thm, tags in rows.items():
-            for tag in tags[:6]:
-                ls = lines_for(tag, tabs, lines) if not tag.startswith("cache") else []
-                if any(s in tag.split() for s in SPECIAL) or tag in SPECIAL:
-                    ls = ls + ["sweep"]
-                tried["%s :: %s" % (thm, tag)] = ls
-                if not ls:
-                    continue
-                b3, o3 = run_rows(ctx, impl, ls, "search:" + tag[:40])
-                for l, o in b3:
-                    found = True
-                    if l in reported:
-                        continue
-                    reported.add(l)
-                    txt = "theorem C04_%s fails at row `%s`; %s" % (thm, tag, describe(l, o))
-                    ctx.violation("api-row", {"kind": "two-api-call", "theorem": thm, "row": tag, "case": l, "output": o,
-                                              "witness": "api-row :: " + l, "text": txt, "driver": impl}, True, txt)
-        if not found:
-            extra = {"offending_rows": rows, "calls_replayed_without_disagreement": tried}
+            if not tags:
+                continue
+            ls = sorted(thm_lines.get(thm, ()))
+            if not any(l in bad_lines for l in ls):
+                unexplained[thm] = {"rows": tags[:8], "calls_replayed_without_disagreement": ls[:12]}
+        if unexplained or not bad:
+            extra = {"offending_rows": rows, "no_failing_call_for": unexplained}
             if tr_err:
                 extra["translator"] = tr_err
-            what = "; ".join("%s at %s" % (k, v[:4]) for k, v in rows.items() if v) or "see build log"
-            ctx.proof["failed"] = ["%s  [rows: %s]" % (", ".join(res["failed"]) or "translator", what)]
+            what = "; ".join("C04_%s at %s" % (k, v["rows"][:4]) for k, v in unexplained.items()) or "no row named by the checkers (see build log)"
+            ctx.proof["failed"] = ["%s  [%s]" % (", ".join(res["failed"]) or "translator", what)]
             ctx.proof_broken(extra)
 
 
